@@ -71,7 +71,8 @@ def loadhist(ctx, vecs, label, aspects, devs, extra=(), paths=None):
     with concurrent.futures.ThreadPoolExecutor(max_workers=nsh) as ex:
         reps = list(ex.map(lambda vp: vlib.run_harness_json(ctx, "schema", ["loadhist", "-vectors", vp] + list(extra), timeout=3000), paths))
     for vp in paths:
-        os.remove(vp)
+        if not os.environ.get("VERIF_KEEP"):
+            os.remove(vp)
     for rep in reps:
         absorb(ctx, rep, label, aspects, devs)
     return reps[0]
